@@ -151,6 +151,9 @@ func genOp(table []string) *rapid.Generator[opSpec] {
 			op.S = rapid.IntRange(0, 2).Draw(t, "s")
 			op.Flags = rapid.SampledFrom([]int{0, 0, 0, 1, 2, 3}).Draw(t, "flags")
 			op.Iface = rapid.SampledFrom([]int{0, 0, 0, 1}).Draw(t, "iface")
+			if kind == "put" || kind == "putnew" || kind == "push" {
+				op.TTL = rapid.SampledFrom([]int{0, 3600}).Draw(t, "ttl")
+			}
 		}
 		return op
 	})
@@ -209,7 +212,7 @@ func TestExhaustiveSingleHook(t *testing.T) {
 								hook,
 								{Kind: "hook", Prefix: 0, Phases: 7},
 								{Kind: "sub", Prefix: 0, Local: true, Internal: true},
-								{Kind: "put", Key: 0, V: 7, S: 1},
+								{Kind: "put", Key: 0, V: 7, S: 1, TTL: 3600},
 								{Kind: "put", Key: 2, V: 7, S: 1},
 								{Kind: "put", Key: 1, V: 2, S: 0},
 								{Kind: "get", Key: 0},
@@ -252,7 +255,7 @@ func TestExhaustiveSubscriptionTable(t *testing.T) {
 						sub := opSpec{Kind: "sub", Prefix: prefix, Cond: c.Cond, CondArg: c.CondArg, Local: priv&1 != 0, Internal: priv&2 != 0}
 						spec := caseSpec{Backend: cfg.backend, Shadow: cfg.shadow, Ops: []opSpec{
 							sub,
-							{Kind: "put", Key: 0, V: 7, S: 1, Flags: flags},
+							{Kind: "put", Key: 0, V: 7, S: 1, Flags: flags, TTL: 3600},
 							{Kind: "put", Key: 1, V: 2, S: 0, Flags: flags},
 							{Kind: "putnew", Key: 2, V: 9, S: 1, Flags: flags},
 							{Kind: "push", Key: 0, V: 6, S: 1, Flags: flags},
